@@ -15,6 +15,7 @@ import (
 
 	"github.com/virus-evolution/gofasta/pkg/encoding"
 	"github.com/virus-evolution/gofasta/pkg/fastaio"
+	"github.com/virus-evolution/gofasta/pkg/vhook"
 )
 
 // snpLine is a struct for one fasta record's SNPs
@@ -47,6 +48,7 @@ func getSNPs(refSeq []byte, cFR chan fastaio.EncodedFastaRecord, cSNPs chan snpL
 			}
 		}
 		SL.snps = SNPs
+		vhook.Ready("snps.getSNPs", FR.Idx)
 		cSNPs <- SL
 	}
 
@@ -70,6 +72,7 @@ func writeOutput(w io.Writer, cSNPs chan snpLine, cErr chan error, cWriteDone ch
 	}
 
 	for snpLine := range cSNPs {
+		vhook.Recv("snps.writeOutput", snpLine.idx)
 
 		outputMap[snpLine.idx] = snpLine
 
@@ -109,6 +112,7 @@ func aggregateWriteOutput(w io.Writer, threshold float64, cSNPs chan snpLine, cE
 	counter := 0.0
 
 	for snpLine := range cSNPs {
+		vhook.Recv("snps.aggregateWriteOutput", snpLine.idx)
 		counter++
 		for _, snp := range snpLine.snps {
 			if _, ok := propMap[snp]; ok {
